@@ -888,12 +888,47 @@ func (v *Verifier) execBlock(b *ssa.BasicBlock, pred *ssa.BasicBlock, st *State)
 			if v.contract != nil && len(v.contract.AssumeDead) > 0 {
 				// a branch the contract assumes dead (a listed assumption about control flow)
 				dead := func(blk *ssa.BasicBlock) string {
+					// keyed by a store or call the branch starts with - "store:<field>" / "call:<callee>" - which
+					// survives edits elsewhere in the file, or (older form) by file:line of its first instruction
+					for k, lbl := range v.contract.AssumeDead {
+						if strings.HasPrefix(k, "store:") {
+							want := strings.TrimPrefix(k, "store:")
+							for _, in := range blk.Instrs {
+								if st, ok := in.(*ssa.Store); ok {
+									if fa, ok := st.Addr.(*ssa.FieldAddr); ok {
+										if pt, ok := fa.X.Type().Underlying().(*types.Pointer); ok {
+											if stt, ok := pt.Elem().Underlying().(*types.Struct); ok && stt.Field(fa.Field).Name() == want {
+												return k + " " + lbl
+											}
+										}
+									}
+								}
+							}
+						}
+						if strings.HasPrefix(k, "call:") {
+							want := strings.TrimPrefix(k, "call:")
+							for _, in := range blk.Instrs {
+								if c, ok := in.(ssa.CallInstruction); ok {
+									if f := c.Common().StaticCallee(); f != nil && f.Name() == want {
+										return k + " " + lbl
+									}
+								}
+							}
+						}
+					}
 					for _, in := range blk.Instrs {
 						if in.Pos().IsValid() {
 							p := v.prog.ssaProg.Fset.Position(in.Pos())
 							k := fmt.Sprintf("%s:%d", filepath.Base(p.Filename), p.Line)
 							if lbl, ok := v.contract.AssumeDead[k]; ok {
 								return k + " " + lbl
+							}
+							// line relative to the line of the func keyword: unaffected by edits outside the function
+							if v.fn.Pos().IsValid() {
+								k2 := fmt.Sprintf("func+%d", p.Line-v.prog.ssaProg.Fset.Position(v.fn.Pos()).Line)
+								if lbl, ok := v.contract.AssumeDead[k2]; ok {
+									return k2 + " " + lbl
+								}
 							}
 							return ""
 						}
